@@ -4,6 +4,7 @@ mod model;
 mod props_algebra;
 mod props_fs;
 mod props_lang;
+mod props_links;
 mod props_partition;
 mod props_query;
 mod props_stack;
@@ -31,6 +32,8 @@ fn replay(prop: &str, file: &str) -> i32 {
             "family" => props_algebra::replay_family(&case),
             "lang" => props_lang::replay_lang(&case),
             "walk" => props_fs::replay_walk(&case, prop),
+            "depthwalk" => props_links::replay_depthwalk(&case),
+            "faultwalk" => props_links::replay_faultwalk(&case),
             "stack" => props_stack::replay_stack(&case, prop),
             "partition-programs" => props_stack::replay_partition_programs(&case),
             "partition" => props_partition::replay_partition(&case),
@@ -129,6 +132,9 @@ fn main() {
         "C02" => props_fs::c02_c14(tier, "C02"),
         "C14" => props_fs::c02_c14(tier, "C14"),
         "C03" => props_stack::c03(tier),
+        "C15" => props_links::c15(tier),
+        "C20" => props_links::c20(tier),
+        "C20-worker" => props_links::c20_worker(tier),
         "C13" => props_stack::c13_c16(tier, "C13"),
         "C16" => props_stack::c13_c16(tier, "C16"),
         "C07" => props_algebra::c07(tier),
